@@ -214,14 +214,15 @@ def decPingPong {P : Type} : Dec (Body P) := fun bs =>
 /-- `read_i32` as a signed value -/
 def toI32 (u : Nat) : Int := if u < 2^31 then (u : Int) else (u : Int) - 2^32
 
-/-- `Readable for BanReason`: a failed `read_i32` is replaced by 0; `ReasonForBan::from_i32` -/
-def decBanReason {P : Type} : Dec (Body P) := fun bs =>
+/-- `Readable for BanReason`: a failed `read_i32` is replaced by 0 (a `BinReader` over a slice has
+then consumed the rest of the slice, a `BufReader` nothing); `ReasonForBan::from_i32` -/
+def decBanReason {P : Type} (rd : Rdr) : Dec (Body P) := fun bs =>
   let v : Int := match readU32 bs with
     | .ok (u, _) => toI32 u
     | .error _ => 0
   let rest := match readU32 bs with
     | .ok (_, r) => r
-    | .error _ => bs
+    | .error _ => (match rd with | .bin => [] | .buf => bs)
   if 0 ≤ v ∧ banReasons.contains v.toNat then .ok (.banReason v.toNat) rest 0 else .err .corrupted 0
 
 def decHashBody {P : Type} (rd : Rdr) : Dec (Body P) := fun bs =>
@@ -281,7 +282,7 @@ def isPayloadType (t : Nat) : Bool :=
 /-- the `msg.body()?` of each arm of `decode_message` (`p2p/src/codec.rs`), instrumented -/
 def decBody {P : Type} (pl : Payload P) (rd : Rdr) (t : Nat) : Dec (Body P) :=
   if t = T_Ping ∨ t = T_Pong then decPingPong
-  else if t = T_BanReason then decBanReason
+  else if t = T_BanReason then decBanReason rd
   else if t = T_TransactionKernel ∨ t = T_GetTransaction ∨ t = T_GetBlock ∨ t = T_GetCompactBlock then decHashBody rd
   else if t = T_GetHeaders then decLocator rd
   else if t = T_GetPeerAddrs then decGetPeerAddrs
